@@ -39,8 +39,10 @@ namespace igris
             m_mutex.lock();
             bWasSignalled = m_bFlag;
             m_bFlag = true;
-            m_mutex.unlock();
+            // notify while the mutex is held: once it is released the waiter
+            // may return from wait() and destroy this event
             m_condition.notify_all();
+            m_mutex.unlock();
             return bWasSignalled == false;
         }
 
